@@ -65,6 +65,14 @@ def plan(tier):
     for base in base_specs():
         DOCS += corpus.decorations(base, key_alias=False)
     DOCS += corpus.merge_pack()
+    # an anchored hash with an equal twin under another name: a merge key
+    # names the hash it refers to, not one that merely equals it
+    _b = ("m", (("a", 1000), ("b", "a")))
+    DOCS += [("m", (("p", ("&", "B", _b)), ("t", ("&", "T", _b)),
+                    ("q", ("m", ((("<<", "B"), None), ("c", 1000)))))),
+             ("m", (("t", ("&", "T", _b)), ("p", ("&", "B", _b)),
+                    ("q", ("l", (("m", ((("<<", "B"), None),)),
+                                 ("m", ((("<<", "T"), None),)))))))]
     DOCS += [
         # anchored containers aliased elsewhere, keys starting with the
         # forward-slash
@@ -99,11 +107,117 @@ def plan(tier):
     bounds = {"documents": len(DOCS), "expressions": len(EXPRS),
               "mode_vectors": len(MODES)}
     step = 6
+    bounds["anchor_names_family"] = {
+        "expressions": [list(e) for e in NAME_EXPRS],
+        "note": "--refnames on every document which defines an anchor: "
+                "soundness of every reported path (resolves to one node "
+                "whose anchor name satisfies the expression; a merge-key "
+                "path names a hash the parent really merges in)"}
     return [(lo, min(len(DOCS), lo + step))
-            for lo in range(0, len(DOCS), step)], bounds
+            for lo in range(0, len(DOCS), step)] + [("names",)], bounds
+
+
+NAME_EXPRS = [("=", "A", False), ("=", "B", False), ("=", "T", False),
+              ("^", "B", False), ("=~", "^[AT]$", False)]
+
+
+def names_family():
+    """Anchor NAMES searched too (--refnames), with terms no key or value of
+    the corpus satisfies: whatever is reported is reported for its anchor."""
+    from yamlpath import YAMLPath
+    from yamlpath.enums import PathSegmentTypes
+    st = core.Stats(ID)
+    for spec in DOCS:
+        text = corpus.render(spec)
+        if "&" not in text:
+            continue
+        doc = corpus.load(text)
+        all_anchors = {}
+        Anchors.scan_for_anchors(doc, all_anchors)
+        for op, term, inv in NAME_EXPRS:
+            expression = "%s%s" % (op, "/%s/" % term if op == "=~" else term)
+            exterm = yaml_paths.get_search_term(corpus.LOG, expression)
+            for ka in (False, True):
+                for va in (False, True):
+                    for sep in (PathSeparators.DOT, PathSeparators.FSLASH):
+                        st.evaluations += 1
+                        case = {"doc": text, "names": True,
+                                "expression": expression,
+                                "mode": [ka, va, str(sep)]}
+                        proc = EYAMLProcessor(corpus.LOG, doc, binary="eyaml")
+                        try:
+                            results = list(yaml_paths.search_for_paths(
+                                corpus.LOG, proc, doc, exterm, sep,
+                                search_values=True, search_keys=False,
+                                search_anchors=True, include_key_aliases=ka,
+                                include_value_aliases=va, decrypt_eyaml=False,
+                                expand_children=False,
+                                all_anchors=all_anchors))
+                        except Exception as ex:  # pylint: disable=broad-except
+                            st.fail("names|crash|%s" % type(ex).__name__,
+                                    case, "paths", repr(ex)[:200])
+                            continue
+                        st.transitions += 1
+                        st.states += 1
+                        st.validated += len(results)
+                        if results:
+                            st.sig("names", text, expression, ka, va)
+                        for path in results:
+                            bad = _judge_name_path(doc, path, sep, op, term)
+                            if bad:
+                                st.fail("names|%s|%s%s" % (
+                                    bad[0], "k" if ka else "-",
+                                    "v" if va else "-"), dict(
+                                        case, path=str(path)),
+                                        "a path to a node anchored by a name "
+                                        "which satisfies the expression",
+                                        bad[1])
+                                break
+    return st
+
+
+def _judge_name_path(doc, path, sep, op, term):
+    from yamlpath import YAMLPath
+    from yamlpath.enums import PathSegmentTypes
+    ptext = str(path)
+    proc = Processor(corpus.LOG, doc)
+    try:
+        nodes = [nc.node for nc in proc.get_nodes(ptext, mustexist=True,
+                                                  pathsep=sep)]
+    except Exception as ex:               # pylint: disable=broad-except
+        return ("unresolvable", "%r: %s" % (ptext, type(ex).__name__))
+    if not nodes or any(n is not nodes[0] for n in nodes):
+        return ("ambiguous-path", "%r: %d nodes" % (ptext, len(nodes)))
+    node = nodes[0]
+    name = anchor_of(node)
+    if name is None or not matches(op, term, False, name):
+        return ("unsound", "%r resolves to a node anchored %r" % (ptext,
+                                                                 name))
+    segs = YAMLPath(ptext).escaped
+    if segs and segs[-1][0] is PathSegmentTypes.ANCHOR and len(segs) > 1:
+        parent_path = YAMLPath(ptext)
+        parent_path.pop()
+        try:
+            parents = [nc.node for nc in proc.get_nodes(
+                parent_path, mustexist=True)]
+        except Exception:                 # pylint: disable=broad-except
+            parents = []
+        if len(parents) == 1 and is_map(parents[0]):
+            par = parents[0]
+            own = [v for _, v in par.non_merged_items()] if hasattr(
+                par, "non_merged_items") else list(par.values())
+            merged = [m[1] for m in (getattr(par, "merge", None) or [])]
+            keys = list(par.keys())
+            if not any(node is x for x in own + merged + keys):
+                return ("unsound-merge-reference",
+                        "%r names a node which %r neither holds nor merges "
+                        "in" % (ptext, str(parent_path)))
+    return None
 
 
 def run_shard(shard):
+    if shard[0] == "names":
+        return names_family()
     lo, hi = shard
     st = core.Stats(ID)
     for di in range(lo, hi):
@@ -318,6 +432,18 @@ def short(n):
 
 def replay(case):
     st = core.Stats(None)
+    if case.get("names"):
+        global DOCS
+        plan("quick")
+        want = corpus.load(case["doc"])
+        DOCS = [d for d in DOCS if corpus.render(d) == case["doc"]]
+        st = names_family()
+        for lst in st.fails.values():
+            for f in lst:
+                if f["case"]["expression"] == case["expression"] and \
+                        f["case"]["mode"] == case["mode"]:
+                    return f
+        return None
     check(st, corpus.load(case["doc"]), case["doc"], "?",
           tuple(case["expr"]), tuple(case["mode"]))
     for lst in st.fails.values():
